@@ -27,7 +27,7 @@ import (
 func TestC07(t *testing.T) {
 	r := report.Start("C07")
 	defer r.Finish()
-	nh := r.Pick(96, 4800)
+	nh := r.Cases(96, 4800)
 	for i := 0; i < nh; i++ {
 		id := fmt.Sprintf("hist/%d", i)
 		if !r.Want(id, i) {
